@@ -144,6 +144,21 @@ func buildCatalogue() []item {
 			return append(append([]*x509.Certificate{}, c...), c[len(c)-1])
 		})
 	})
+	add("root-reissued-twin-before-root", false, rootOnly, func(d *desc, pos int) {
+		// another edition of the root (same subject and key, other serial, also
+		// self-signed) sits in front of the root: a second self-signed certificate
+		spec := d.specs[pos]
+		d.post = append(d.post, func(c []*x509.Certificate) []*x509.Certificate {
+			twin := *spec
+			twin.Serial = new(big.Int).Add(c[len(c)-1].SerialNumber, big.NewInt(500))
+			tc, err := pki.Issue(&twin, nil, nil)
+			if err != nil {
+				return c
+			}
+			out := append([]*x509.Certificate{}, c[:len(c)-1]...)
+			return append(out, tc, c[len(c)-1])
+		})
+	})
 	add("root-missing", false, rootOnly, func(d *desc, pos int) {
 		d.post = append(d.post, func(c []*x509.Certificate) []*x509.Certificate { return c[:len(c)-1] })
 	})
